@@ -11,17 +11,25 @@ KNOWN FINDINGS (chibicc as it is now deviates from the property; see known_findi
 
 * `C18-line-directive-off-by-one` — `read_line_marker` sets `line_delta = N - line_no(directive)`, so the line after
   `#line N` is numbered N+1; C11 6.10.4p3 (and gcc) number it N.  test/line.c asserts the N+1.  Region: every token
-  of a file after a `#line N`, `#line N "f"` or `# N "f"` directive in that file (`stateAfter … ≠` the fresh File).
-  Further observations INSIDE this region (same cause: the `#line` state lives in `File.line_delta`/`display_name`
-  and is applied late), all confirmed on the binary and not reported separately:
+  of a file BELOW a `#line N`, `#line N "f"` or `# N "f"` directive of that file (`Spec.Line.inForce dirs line ≠ none`;
+  `C18_line_directive_order_independent` / `C18_line_directive_all_schedules`: there, and only there, the reported line is the
+  C11 presumed line plus one).
+  Further observations INSIDE this region (same cause: the delta is relative to the directive's own line and is added to
+  `line_no` only at the end of `preprocess`), all confirmed on the binary and not reported separately:
     - diagnostics after `# 7 "foo.c"` print the REAL file name with the SHIFTED line (`t.c:8:` — `verror_at` is given
       `tok->file->name`, not `display_name`); `.loc` likewise keeps the real file number with the shifted line;
     - diagnostics raised while preprocessing (`#error`, bad directives: before `preprocess` adds `line_delta`) print
       the unshifted physical line, diagnostics raised by the parser the shifted one;
-    - a token copied from a macro body defined BEFORE the directive and used after it gets the delta of the time of use;
-    - tokens synthesised by `##`, `#`, `__LINE__` … live in a fresh `File` (delta 0) and are never shifted.
+    - tokens synthesised by `##`, `#`, `__LINE__` … live in a fresh `File` (no markers) and are never shifted.
 
 REPAIRED DEFECT (fixed in /repo by a `fix:` commit; the model follows the repaired code):
+
+* `#line` was retroactive: `read_line_marker` stored `line_delta` / `display_name` in the `File`, and `preprocess2` gave them to
+  EVERY token of that file passed on afterwards — also to tokens read earlier, such as the body of a macro defined above the
+  directive and expanded below it.  `#define RET return 0;` (line 1) … `#line 1` (line 10) … `int main(void) { RET }` emitted
+  `.loc 1 -8` (1 + (1 − 10)), which the assembler rejects.  Now each `File` keeps its directives with their line
+  (`LineMarker`) and a token takes the one in force at its own line (`line_marker_at`).  `runFileOld` below is the pre-fix
+  behaviour; the repaired code satisfies `C18_line_directive_positional` / `C18_line_directive_not_retroactive`.
 
 * tokens synthesised by `paste`, `new_str_token`, `new_num_token` kept `line_no = 1` (their one-line private buffer),
   so a diagnostic or `.loc` for a pasted / stringized / `__LINE__`-made token said line 1.  Now they take the template
@@ -63,8 +71,47 @@ def lineDirWitness : List Nat := [35, 108, 105, 110, 101, 32, 49, 48, 48, 10, 12
 /-- known finding `C18-line-directive-off-by-one`: the full `#line` statement is false (reported 101, presumed 100) -/
 theorem C18_finding_line_directive_off_by_one : ¬ C18_line_directive_Statement := by
   intro h
-  have := h lineDirWitness (newFile "t.c" 1) [] [] 0 100 none 10 (by simp) (by decide) (by decide) (by decide) (by decide)
+  have := h lineDirWitness (newFile "t.c" 1) [] [] 0 100 none 10 (by simp [dirsOf]) (by decide) (by decide) (by decide)
+    (by decide) (by decide)
   revert this; decide
+
+/-- pre-fix `preprocess2` pass-through, `line_macro`, `file_macro`: `tok->line_delta = tok->file->line_delta;
+    tok->filename = tok->file->display_name;` — the state of the FILE at the time the token is passed on -/
+def runFileOld (text : List Nat) : File → List Ev → List Out
+  | _, [] => []
+  | f, .tok off :: r => .tok ((lineNoOf text off : Int) + f.lineDelta) f.displayName :: runFileOld text f r
+  | f, .lineDir off n name :: r => runFileOld text (readLineMarker f (lineNoOf text off) n name) r
+  | f, .lineMac off :: r => .line ((lineNoOf text off : Int) + f.lineDelta) :: runFileOld text f r
+  | f, .fileMac _ :: r => .file f.displayName :: runFileOld text f r
+
+/-- `#define RET return 0;⏎` + 8 blank lines + `#line 1⏎` (line 10) + `int main(void) { RET }⏎` (line 11) -/
+def retroWitness : List Nat :=
+  [35, 100, 101, 102, 105, 110, 101, 32, 82, 69, 84, 32, 114, 101, 116, 117, 114, 110, 32, 48, 59, 10,
+   10, 10, 10, 10, 10, 10, 10, 10, 35, 108, 105, 110, 101, 32, 49, 10,
+   105, 110, 116, 32, 109, 97, 105, 110, 40, 118, 111, 105, 100, 41, 32, 123, 32, 82, 69, 84, 32, 125, 10]
+
+/-- the order in which `preprocess2` meets things in that file: the directive (`#` at offset 30), `int` (offset 38, line 11), …,
+    then — expanding `RET` — the body token `return` (offset 12, line 1) -/
+def retroEvents : List Ev := [.lineDir (posMap retroWitness 30) 1 none, .tok (posMap retroWitness 38), .tok (posMap retroWitness 12)]
+
+/-- repaired defect: on this input the old code reported the macro-body token `return` on line −8 (`.loc 1 -8`) although the
+    only directive operand is 1 — so `C18_line_directive_positional` was false for it; the repaired code reports line 1, the
+    physical line of the token -/
+theorem C18_fixed_line_directive_retroactive :
+    (∀ off n nm, Ev.lineDir off n nm ∈ retroEvents → 1 ≤ n) ∧
+    runFileOld (sourceText retroWitness) (newFile "t.c" 1) retroEvents = [.tok 2 "t.c", .tok (-8) "t.c"] ∧
+    ¬ (∀ l nm, Out.tok l nm ∈ runFileOld (sourceText retroWitness) (newFile "t.c" 1) retroEvents → 1 ≤ l) ∧
+    runFile (sourceText retroWitness) (newFile "t.c" 1) retroEvents = [.tok 2 "t.c", .tok 1 "t.c"] ∧
+    physLine retroWitness 12 = 1 := by
+  have hrun : runFileOld (sourceText retroWitness) (newFile "t.c" 1) retroEvents = [.tok 2 "t.c", .tok (-8) "t.c"] := by
+    decide
+  refine ⟨?_, hrun, ?_, by decide, by decide⟩
+  · intro off n nm h
+    simp [retroEvents] at h
+    omega
+  · intro h
+    have := h (-8) "t.c" (by rw [hrun]; simp)
+    omega
 
 /-- pre-fix `paste` / `new_str_token` / `new_num_token`: `line_no` 1 from `add_line_numbers` on the private buffer -/
 def synthTokOld (tmpl : TokInfo) : TokInfo := { file := .synth tmpl.file.base, lineNo := 1 }
